@@ -46,6 +46,15 @@ export function* generate({ tier, seed }) {
     const src = `import { defineComponent, SetupContext } from "vue";\n${order === 'before' ? decls + '\n' + call : call + '\n' + decls}\n`;
     yield { gid: `C19-empty-${ei++}`, src, syntax: 'tsx', spec: { names: [] }, feature: `emptySet|${e}|${decls.replace(/\W+/g, '').slice(0, 20)}|${order}`, variants: [{ vid: 'v0', options: { resolveType: true } }] };
   }
+  // a default-exported interface (declared before the call)
+  for (let i = 0; i < (tier === 'quick' ? 60 : 600); i++) {
+    const names = rng.shuffle(EVENT_NAMES).slice(0, 1 + rng.int(3));
+    const q2 = (x) => JSON.stringify(x);
+    const base = rng.bool() ? `interface Local { (e: ${q2(names[0])}): void }\n` : '';
+    const rest = base ? names.slice(1) : names;
+    const src = `import { defineComponent, SetupContext } from "vue";\n${base}export default interface Emits${base ? ' extends Local' : ''} { ${rest.map((x) => `(e: ${q2(x)}): void`).join('; ')} }\nexport const Comp = defineComponent((props: {}, ctx: SetupContext<Emits>) => () => null);\n`;
+    yield { gid: `C19-dflt-${i}`, src, syntax: 'tsx', spec: { names }, feature: `exportDefaultInterface|${base ? 'extendsLocal' : 'plain'}|k=${names.length}|${i % 20}`, variants: [{ vid: 'v0', options: { resolveType: true } }] };
+  }
   // same-named literal-union aliases (and interfaces) in different scopes, several components per module
   let si = 0;
   const q = (x) => JSON.stringify(x);
